@@ -107,7 +107,8 @@ def build_graph_table(rng, length, shape, cyclic, nconfigs, extra_values):
                         concrete.append(s)
                 put(arr_entries, cfg, 0, R.Entry("bag", "complex", items=items))
             else:
-                put(str_entries, cfg, i, R.Entry("node%d" % i, "plain", value=v))
+                ek = "compact" if shape == "compact" or (shape == "mixed" and rng.random() < 0.5) else "plain"
+                put(str_entries, cfg, i, R.Entry("node%d" % i, ek, value=v))
         if extra_values and rng.random() < 0.6 and not (shape == "complex" and i == 0):
             s = "side-%d-%d" % (i, rng.randrange(10 ** 6))
             put(str_entries, extra_cfg, i, R.Entry("node%d" % i, "plain", value=R.Value(R.T_STRING, string=s)))
@@ -259,7 +260,7 @@ def replay(ctx, path):
 
 
 def run(ctx):
-    ctx.rule = ("tables with reference chains (control, must resolve exactly) and cycles of length 1..5 through plain entries and through bag items, 1..4 configurations per "
+    ctx.rule = ("tables with reference chains (control, must resolve exactly) and cycles of length 1..5 through plain entries, compact entries (FLAG_COMPACT), mixtures of both and through bag items, 1..4 configurations per "
                 "node, optional concrete side values; get_resolved_res_configs(rid) and (rid, default config) run under a sys.monitoring step budget calibrated on the "
                 "acyclic chains (100x linear envelope); APK.get_app_name / get_app_icon with label/icon on a cycle. distinct non-trivial = distinct (chain|cycle, length, "
                 "shape, configs per node, side values)")
@@ -271,7 +272,7 @@ def run(ctx):
     cal = []
     reps = 2 if ctx.quick else 12
     for length in range(1, 6):
-        for shape in ("plain", "complex"):
+        for shape in ("plain", "complex", "compact", "mixed"):
             for nconf in (1, 2, 4):
                 for extra in (False, True):
                     for _ in range(reps):
@@ -284,7 +285,7 @@ def run(ctx):
     ctx.extra["calibration"] = {"runs": len(cal), "max_steps_per_node": round(ratio, 1), "const": const}
     # 2. cycles
     for length in range(1, 6):
-        for shape in ("plain", "complex"):
+        for shape in ("plain", "complex", "compact", "mixed"):
             for nconf in (1, 2, 4):
                 for extra in (False, True):
                     for _ in range(reps):
